@@ -82,6 +82,7 @@ int merge_arg_lists (int num_arg, array_t * arr, int start) {
 
   if (num_arr_arg)
     {
+      STACK_CHECK (num_arr_arg);	/* the array may be far larger than what is left of the value stack */
       sptr = (sp += num_arr_arg);
       if (num_arg)
         {
